@@ -835,7 +835,14 @@ func (env *Env) call(x *Expr) Val {
 			sfail("typeid needs a string literal type")
 		}
 		t := env.parseType(x.Args[0].Name)
-		return Val{T: fmt.Sprint(e.typeID(t)), Ty: mathInt}
+		id := e.typeID(t)
+		if errT, ok := types.Universe.Lookup("error").Type().Underlying().(*types.Interface); ok && !types.Implements(t, errT) {
+			if k := fmt.Sprintf("noerr:%d", id); !e.sc.seen[k] {
+				e.sc.seen[k] = true
+				e.sc.assert(fmt.Sprintf("(not (implErr %d))", id))
+			}
+		}
+		return Val{T: fmt.Sprint(id), Ty: mathInt}
 	case "unbox":
 		// unbox("T", x)
 		if x.Args[0].Op != "str" {
